@@ -38,3 +38,66 @@ def observers(program: Program) -> list[tuple[FuncInfo, ClassInfo | None]]:
             if is_observer(f) or f.name in ("format_quotes", "format_alias_sql", "resolve_is_aggregate"):
                 out.append((f, None))
     return out
+
+
+def memo_methods(program):
+    """methods decorated with a memoising decorator (value stored on / keyed by the instance)"""
+    MEMO = {"cached_property", "lru_cache", "cache"}
+    return [(f, sorted(MEMO & set(f.decorators))[0]) for c in program.all_classes() for f in c.methods.values() if MEMO & set(f.decorators)]
+
+
+def one_shot_reuse_sites(program):
+    """local variables bound to a one-shot iterator (generator expression, map/filter/zip/iter/itertools.*, call of a
+    generator function) that are consumed more than once or inside a loop that does not re-create them:
+    (function, variable, description, node of the second/looped use)"""
+    import ast
+    LAZY = {"map", "filter", "zip", "iter", "reversed", "enumerate", "chain", "from_iterable", "islice", "starmap", "takewhile", "dropwhile", "groupby", "accumulate", "product"}
+    gens = set()
+    for f in program.all_functions():
+        nested = {id(y) for d in ast.walk(f.node) if isinstance(d, (ast.FunctionDef, ast.Lambda)) and d is not f.node for y in ast.walk(d) if isinstance(y, (ast.Yield, ast.YieldFrom))}
+        if any(isinstance(y, (ast.Yield, ast.YieldFrom)) and id(y) not in nested for y in ast.walk(f.node)):
+            gens.add(f.name)
+
+    def lazy(e):
+        if isinstance(e, ast.GeneratorExp):
+            return "a generator expression"
+        if isinstance(e, ast.Call):
+            fn = e.func
+            nm = fn.id if isinstance(fn, ast.Name) else (fn.attr if isinstance(fn, ast.Attribute) else None)
+            if nm in LAZY:
+                return f"{nm}(...)"
+            if nm in gens and isinstance(fn, ast.Attribute):
+                return f"a call of the generator function {nm}"
+        return None
+    out = []
+    for f in program.all_functions():
+        parents = {}
+        for n in ast.walk(f.node):
+            for ch in ast.iter_child_nodes(n):
+                parents[ch] = n
+        for n in ast.walk(f.node):
+            if not (isinstance(n, ast.Assign) and len(n.targets) == 1 and isinstance(n.targets[0], ast.Name)):
+                continue
+            desc = lazy(n.value)
+            if not desc:
+                continue
+            var = n.targets[0].id
+            # loops enclosing the assignment
+            def loops_of(x):
+                ls = []
+                while x in parents:
+                    x = parents[x]
+                    if isinstance(x, (ast.For, ast.While, ast.ListComp, ast.SetComp, ast.GeneratorExp, ast.DictComp)):
+                        ls.append(x)
+                return ls
+            own_loops = set(map(id, loops_of(n)))
+            uses = [u for u in ast.walk(f.node) if isinstance(u, ast.Name) and u.id == var and isinstance(u.ctx, ast.Load) and getattr(u, "lineno", 0) >= n.lineno]
+            # re-assignments of the same name make this too imprecise to judge
+            if sum(1 for a in ast.walk(f.node) if isinstance(a, ast.Assign) and any(isinstance(t, ast.Name) and t.id == var for t in a.targets)) > 1:
+                continue
+            looped = [u for u in uses if any(id(lp) not in own_loops and not (isinstance(lp, ast.For) and any(x is u for x in ast.walk(lp.iter))) for lp in loops_of(u))]
+            if looped:
+                out.append((f, var, desc, looped[0], "is consumed inside a loop that does not re-create it: from the second iteration on it is empty"))
+            elif len(uses) > 1:
+                out.append((f, var, desc, uses[1], "is consumed at more than one place: the second consumer finds it empty"))
+    return out
